@@ -163,3 +163,26 @@ Theorem C06_struct_loaded_designed_string_flows : forall (ls : list pline) (p : 
        In (sn, join_plus (map (fun n => match afind (r_strands a) n with Some v => v | None => [] end) names)) recs).
 Proof. exact sloaded_design_results_ok. Qed.
 Print Assumptions C06_struct_loaded_designed_string_flows.
+
+(* composed at component level in the structure layout as well *)
+Theorem C06_compiled_design_finishes_struct : forall ctr prefix d body c ctr' p lay g e w s nts,
+  compile_comp ctr prefix d body = OK (c, ctr') ->
+  load_spec (emit_comp c) pspec0 = OK p -> seed p true = OK (lay, g) -> get_constraints p true = DOk e w s -> fits nts e w ->
+  exists a recs, process_results p lay nts = OK a /\ output_records p a = OK recs /\
+    (NoDup (map fst recs) -> exists f, apply_comp (table_of recs) c = OK f).
+Proof. exact compiled_design_finishes_struct. Qed.
+Print Assumptions C06_compiled_design_finishes_struct.
+
+Theorem C06_compiled_component_end_to_end_struct : forall ctr prefix d body c ctr',
+  compile_comp ctr prefix d body = OK (c, ctr') ->
+  (forall n b, In (n, b) (c_bases c) -> valid_template (b_const b) = true) ->
+  exists p, load_spec (emit_comp c) pspec0 = OK p /\
+    ((forall n items l d, In (n, (items, l, d)) (p_strands p) -> l <> 0 -> first_inst_in p (p_structs p) n <> None) ->
+     exists g, seed p true = OK (build_layout p true, g) /\
+      (get_constraints p true = DOver \/
+       exists e w s, get_constraints p true = DOk e w s /\
+         forall nts, fits nts e w ->
+           exists a recs, process_results p (build_layout p true) nts = OK a /\ output_records p a = OK recs /\
+             (NoDup (map fst recs) -> exists f, apply_comp (table_of recs) c = OK f))).
+Proof. exact compiled_component_end_to_end_struct. Qed.
+Print Assumptions C06_compiled_component_end_to_end_struct.
